@@ -10,6 +10,7 @@ package main
 //     are the operands the call sites pass.
 
 import (
+	"go/token"
 	"go/types"
 	"sort"
 	"strings"
@@ -96,7 +97,7 @@ func (gl *gramLevel) calleeOf(p *Prog, ci ssa.CallInstruction) (callee *ssa.Func
 			return nil, false
 		}
 		// bound to the parser the level itself runs on
-		if len(gl.fn.Params) == 0 || gl.resolve(x.Bindings[0]) != ssa.Value(gl.fn.Params[0]) {
+		if len(gl.fn.Params) == 0 || unspillParam(gl.resolve(x.Bindings[0])) != ssa.Value(gl.fn.Params[0]) {
 			return nil, false
 		}
 		if obj, isF := fn.Object().(*types.Func); isF {
@@ -393,4 +394,30 @@ func errorHandedOn(p *Prog, site ssa.CallInstruction, ei, nres int) bool {
 	}
 	walk(ev, 0)
 	return returned
+}
+
+// unspillParam: a parameter read back from the cell it was spilled to (a closure — e.g. a deferred one — captures it):
+// the load of an allocation whose only store is that parameter, at the function's entry.
+func unspillParam(v ssa.Value) ssa.Value {
+	u, ok := v.(*ssa.UnOp)
+	if !ok || u.Op != token.MUL {
+		return v
+	}
+	al, ok := u.X.(*ssa.Alloc)
+	if !ok {
+		return v
+	}
+	var stored ssa.Value
+	for _, ref := range *al.Referrers() {
+		if st, ok := ref.(*ssa.Store); ok && st.Addr == ssa.Value(al) {
+			if stored != nil {
+				return v
+			}
+			stored = st.Val
+		}
+	}
+	if pa, ok := stored.(*ssa.Parameter); ok {
+		return pa
+	}
+	return v
 }
